@@ -1243,3 +1243,84 @@ Proof.
     + eapply seg_post_rst; eauto.
       rewrite F1 in Hq. simpl in Hq. exact Hq.
 Qed.
+
+(* ================================================================== *)
+(** * 4b. API calls, interface filter, dispatch                        *)
+(* ================================================================== *)
+
+Lemma l_len_acc_ge : forall l acc, acc <= l_len_acc l acc.
+Proof. induction l; intros; simpl; [lia | specialize (IHl (acc + 1)); lia]. Qed.
+Lemma l_len_nonneg : forall l, 0 <= l_len l.
+Proof. intros. unfold l_len. apply l_len_acc_ge. Qed.
+
+Lemma rb_get_idx_range : forall r i, 0 < rb_cap r -> 0 <= rb_get_idx r i < rb_cap r.
+Proof.
+  intros r i H. unfold rb_get_idx. destruct (Z.gtb_spec (rb_cap r) 0); [|lia].
+  apply Z.mod_pos_bound. lia.
+Qed.
+
+Lemma rb_enqueue_pass_len : forall r data r' n rest,
+  0 <= rb_len r <= rb_cap r -> rb_enqueue_pass r data = (r', n, rest) ->
+  rb_len r' = rb_len r + n /\ rb_cap r' = rb_cap r /\ 0 <= n /\ 0 <= rb_len r' <= rb_cap r'.
+Proof.
+  intros r data r' n rest Hr H. unfold rb_enqueue_pass in H.
+  set (r0 := if rb_len r =? 0 then mkRing (rb_cap r) (rb_store r) 0 (rb_len r) else r) in *.
+  assert (H0 : rb_len r0 = rb_len r /\ rb_cap r0 = rb_cap r).
+  { unfold r0. destruct (rb_len r =? 0); simpl; auto. }
+  destruct H0 as [H1 H2]. inv H. simpl. rewrite H1, H2.
+  pose proof (l_len_nonneg data) as Hd.
+  unfold rb_contiguous_window, rb_window. rewrite H1, H2.
+  assert (Hidx : 0 <= rb_cap r - rb_get_idx r0 (rb_len r)).
+  { destruct (Z.eq_dec (rb_cap r) 0) as [E|E].
+    - unfold rb_get_idx. rewrite H2, E. simpl. lia.
+    - pose proof (rb_get_idx_range r0 (rb_len r)). rewrite H2 in H. lia. }
+  lia.
+Qed.
+
+Lemma rb_enqueue_slice_len : forall r data r' n,
+  0 <= rb_len r <= rb_cap r -> rb_enqueue_slice r data = (r', n) ->
+  rb_len r' = rb_len r + n /\ rb_cap r' = rb_cap r /\ 0 <= rb_len r' <= rb_cap r'.
+Proof.
+  intros r data r' n Hr H. unfold rb_enqueue_slice in H.
+  destruct (rb_enqueue_pass r data) as [[r1 n1] rest1] eqn:E1.
+  destruct (rb_enqueue_pass r1 rest1) as [[r2 n2] rest2] eqn:E2. inv H.
+  apply rb_enqueue_pass_len in E1; [|assumption]. destruct E1 as (A1 & A2 & A3 & A4).
+  apply rb_enqueue_pass_len in E2; [|assumption]. destruct E2 as (B1 & B2 & B3 & B4).
+  lia.
+Qed.
+
+(* reset() *)
+Lemma reset_spec : forall s,
+  s_state (tcp_reset s) = Closed /\ s_local_seq_no (tcp_reset s) = 0 /\
+  rb_len (s_tx_buffer (tcp_reset s)) = 0 /\ rb_cap (s_tx_buffer (tcp_reset s)) = rb_cap (s_tx_buffer s) /\
+  s_syn_unacked_in_fin_wait (tcp_reset s) = false /\ s_tuple (tcp_reset s) = None /\
+  s_timer (tcp_reset s) = TIdle None.
+Proof. intros. unfold tcp_reset. simpl. auto 10. Qed.
+
+Lemma seq_wf_0 : seq_wf 0.
+Proof. unfold seq_wf. rewrite seq_modulus_val. lia. Qed.
+
+Lemma inv_reset : forall s g, inv s g -> inv (tcp_reset s) g.
+Proof.
+  intros s g (HJ & Hw & Hg & Htx & Htw & Htu & Hfl & Htc).
+  destruct (reset_spec s) as (R1 & R2 & R3 & R4 & R5 & R6 & R7).
+  unfold inv, J, tx_len. rewrite R1, R2, R3, R4, R5, R6, R7.
+  unfold tx_len in Htx.
+  isplit; auto; try discriminate; try lia; try apply seq_wf_0; try congruence.
+Qed.
+
+(* invariant transported along a change that leaves the connection fields alone *)
+Lemma inv_frame : forall s s' g,
+  inv s g ->
+  s_state s' = s_state s -> s_local_seq_no s' = s_local_seq_no s ->
+  s_tx_buffer s' = s_tx_buffer s ->
+  s_syn_unacked_in_fin_wait s' = s_syn_unacked_in_fin_wait s -> s_tuple s' = s_tuple s ->
+  (s_timer s' = s_timer s \/
+   (s_state s <> TimeWait /\ forall e, s_timer s' <> TClose e)) ->
+  inv s' g.
+Proof.
+  intros s s' g (HJ & Hw & Hg & Htx & Htw & Htu & Hfl & Htc) H1 H2 H3 H4 H5 Ht.
+  unfold inv, J, tx_len in *. rewrite H1, H2, H3, H4, H5. isplit; auto; try lia.
+  - intros E. destruct Ht as [Ht|[Ht _]]; [rewrite Ht; auto | contradiction].
+  - intros e He. destruct Ht as [Ht|[_ Ht]]; [rewrite Ht in He; eauto | exfalso; eapply Ht; eauto].
+Qed.
